@@ -143,6 +143,14 @@ def make_generated(rng, kind):
         base = {"world": W.clean_world(w), "files": files, "stdout": None, "expect_exit": 0}
         out.append(dict(base, name="gen-phase-multisample", subcommand="phase",
                         argv=["phase", "-o", "{out:phased.vcf}", "--reference", "{W}/ref.fa", "--output-read-list", "{out:reads.tsv}", "{W}/in.vcf", "{W}/reads.bam"]))
+        # the same input file named more than once on the command line, next to another one
+        W.gen_library(rng, w, "L1", depth=rng.choice([2, 4]))
+        files.append({"kind": "bam", "lib": "L1", "name": "more.bam"})
+        base = {"world": W.clean_world(w), "files": files, "stdout": None, "expect_exit": 0}
+        out[0]["world"] = base["world"]
+        out.append(dict(base, name="gen-phase-repeated-inputs", subcommand="phase",
+                        argv=["phase", "-o", "{out:phased.vcf}", "--reference", "{W}/ref.fa", "--output-read-list", "{out:reads.tsv}",
+                              "{W}/in.vcf", "{W}/reads.bam", "{W}/more.bam", "{W}/reads.bam", "{W}/truth.vcf", "{W}/truth.vcf"]))
         out.append(dict(base, name="gen-phase-multisample-hp-distrust", subcommand="phase",
                         argv=["phase", "-o", "{out:phased.vcf.gz}", "--reference", "{W}/ref.fa", "--tag", "HP", "--distrust-genotypes", "--include-homozygous",
                               "--changed-genotype-list", "{out:changed.tsv}", "{W}/in.vcf", "{W}/reads.bam"]))
